@@ -10,7 +10,7 @@ from .common import nerr
 def side_layers(g, full, k, j):
     """(ghost, interior) layers of side j (0 low / 1 high) of axis k, restricted to interior cells of the
     other axes; returned with the side's coefficient shape."""
-    full = np.asarray(full).reshape(g.full_shape())
+    full = np.asarray(full, dtype=float).reshape(g.full_shape())      # boundary values are numbers whatever dtype stores them
     gi = [slice(1, -1)] * g.nd
     ii = [slice(1, -1)] * g.nd
     gi[k] = 0 if j == 0 else -1
